@@ -380,11 +380,17 @@ class TimeTriggeredPlanValidator(engines.engine.Engine, mixins.PlanValidatorMixi
                 changes = self._apply_effect(state, se, ai, eff, updates, problem)
                 for f, v in changes.items():
                     if f in assigned or (f in updates and eff.is_assignment()):
-                        if f.type.is_bool_type() and assigned[f] == ai:
+                        if not (
+                            eff.is_assignment() and f in assigned and assigned[f] == ai
+                        ):
+                            raise UPConflictingEffectsException("Double effect")
+                        elif f.type.is_bool_type():
                             # Handle "delete before add" semantics
                             if v.bool_constant_value():
                                 updates[f] = v
-                        else:
+                        elif v.constant_value() != updates[f].constant_value():
+                            # one action can assign a fluent twice only with the same
+                            # value, as in the UPSequentialSimulator
                             raise UPConflictingEffectsException("Double effect")
                     else:
                         updates[f] = v
